@@ -199,6 +199,19 @@ CLAIMS["C10"] = dict(
     technique="lattice normal form of min/max over GVN value numbers + sign analysis + AFF/SSP analysis",
     ref="DESIGN.md section 4 C10, section 5")
 
+CLAIMS["C15"] = dict(
+    text=("Clause set: the 2D slice code (fvm2dcart gradients, closures, calc_bc, calc_res, extrapol2d1/2dk, calc_flux) is "
+          "decoded by polynomial identities in (j, nx, ny) against the layout of the arrays it touches (writer's and reader's "
+          "tables must agree: LAYOUT-AGREE); the decoded relation sets are closed under the transposition "
+          "(i,j,nx,ny,dx,dy,i-face) <-> (j,i,ny,nx,dy,dx,j-face) for scalar and vector components, periodic and open "
+          "boundaries; the flux balance is the 2D telescoping form with /dx and /dy; normals (1,0) on exactly the i-faces and "
+          "(0,1) on the j-faces; each boundary tag passes its outward unit normal and the interior side and stores the "
+          "exterior side; x-direction relations equal the 1D ones on a uniform mesh; 2D fluxes with a grid-aligned normal "
+          "and no transverse velocity equal the 1D fluxes and carry no transverse momentum (GVN); every Euler-2D kernel is "
+          "built from covariant vector operations (rank typing). Not decided: agreement to round-off."),
+    technique="2D access-relation decoding (polynomial identities) + relation-set closure under transposition + algebraic GVN + vector rank typing",
+    ref="DESIGN.md section 4 C15")
+
 NA_REASONS = {
     "C09": ("runtime invariant of trajectories (range and total variation after every step for all data); its "
             "code-shape premises are owned and decided by C02, C05, C11, C12, C18; the remaining step (flux "
